@@ -137,6 +137,7 @@ func (fv *FV) call(e *Env, x *ast.CallExpr) Value {
 			if !pc.Re.MatchString(fn.FullName()) {
 				continue
 			}
+			fv.notePremise(e, pc.Cl, &specCtx{old: fv.entry, preAlloc: fv.entry.alloc, lenient: true, callArgs: args})
 			t := fv.specTermO(e, pc.Cl, &specCtx{old: fv.entry, preAlloc: fv.entry.alloc, lenient: true, callArgs: args})
 			fv.obligeNamed(e, "precall", fmt.Sprintf("precall:%s#%d", pc.Cl.Label, fv.siteOrd("precall"+pc.Cl.Label)), x,
 				fmt.Sprintf("call of %s is made only when %q", fn.FullName(), pc.Cl.Text), t)
@@ -915,6 +916,11 @@ func (fv *FV) applyContract(e *Env, x *ast.CallExpr, u *FuncUnit, recv *Value, a
 	pre := e.clone()
 	for _, cl := range c.Requires {
 		t := fv.specTermO(e, cl, &specCtx{old: pre, bind: bind})
+		if fv.spec == nil && fv.u != nil && fv.u.C != nil && matchAny(fv.u.C.AssumePre, u.Name()) {
+			fv.assumptionsUsed["precondition of "+u.Name()+" ASSUMED (not proved) at its call sites in "+fv.u.Name()+": "+cl.Text] = true
+			fv.assume(e, t)
+			continue
+		}
 		fv.obligeNamed(e, "pre", fmt.Sprintf("pre:%s.%s#%d", u.Name(), cl.Label, fv.siteOrd(u.Name()+cl.Label)), x,
 			fmt.Sprintf("precondition of %s: %s", u.Name(), cl.Text), t)
 		fv.assume(e, t)
@@ -1578,7 +1584,13 @@ func (fv *FV) ghostBuiltin(e *Env, x *ast.CallExpr, fn *types.Func) Value {
 	case "gh_local":
 		// gh_local[T]("x"): the unique local x of a nested block (see checkClause)
 		if o := fv.clauseLocal(x); o != nil {
-			if v, has := fv.lookup(e, o); has {
+			v, has := fv.lookup(e, o)
+			if !has {
+				if lv, ok := e.late[o]; ok {
+					v, has = lv.val, true
+				}
+			}
+			if has {
 				if fv.boxed[o] && v.K == kScalar && v.T.Sort == sRef {
 					if _, s := sortOf(o.Type()); s != sRef || fv.isBoxRef(e, o, v) {
 						return fv.loadCell(e, boxComp(o.Type()), o.Type(), "", v.T)
@@ -1599,6 +1611,9 @@ func (fv *FV) ghostBuiltin(e *Env, x *ast.CallExpr, fn *types.Func) Value {
 			if o := fv.clauseLocal(c); o != nil {
 				if _, has := fv.lookup(e, o); has {
 					return Value{K: kScalar, T: tTrue}
+				}
+				if lv, ok := e.late[o]; ok {
+					return Value{K: kScalar, T: lv.defd}
 				}
 				return Value{K: kScalar, T: tFalse}
 			}
@@ -1988,4 +2003,13 @@ func isByteSlice(t types.Type) bool {
 	}
 	b, ok := sl.Elem().Underlying().(*types.Basic)
 	return ok && b.Kind() == types.Uint8
+}
+
+func matchAny(res []*regexp.Regexp, s string) bool {
+	for _, re := range res {
+		if re.MatchString(s) {
+			return true
+		}
+	}
+	return false
 }
